@@ -125,6 +125,15 @@ def main():
 
 def finish(a, meta, keep):
     meta["needs_to_manifest"] = a.needs
+    prev = os.path.join(VERIF, "seeded", a.id, "meta.json")
+    if os.path.exists(prev):
+        try:
+            pm = json.load(open(prev))
+            for k in ("confirmed_on_repo", "what"):
+                if k in pm and k not in meta:
+                    meta[k] = pm[k]
+        except Exception:  # noqa: BLE001
+            pass
     d = os.path.join(VERIF, "seeded" if keep else "seeded_rejected", a.id)
     os.makedirs(d, exist_ok=True)
     for f in ("patch.diff", "demo.py"):
